@@ -3,7 +3,7 @@
     cuts the written text into exactly [wtoks], provided every one of these texts is a well-formed token of its type. *)
 From Coq Require Import Ascii String List Bool Arith NArith ZArith Lia.
 From A2L Require Import Base.StableSort Text.Escape Text.IntText Lex.Tokenizer Gram.Spec A2ml.Types Gram.PState Gram.Parser Gram.Writer
-  Gram.TokWriter Proofs.LexUnitsProofs Proofs.GroupOrderProofs Proofs.SpecEqProofs Proofs.CursorProofs Proofs.RoundTripProofs.
+  Gram.TokWriter Proofs.LayoutProofs Proofs.LexUnitsProofs Proofs.WriterFlagProofs Proofs.GroupOrderProofs Proofs.SpecEqProofs Proofs.CursorProofs Proofs.RoundTripProofs.
 Import ListNotations.
 Local Open Scope N_scope.
 
@@ -35,26 +35,49 @@ Proof. unfold push. cbn [fst]. apply rev_append_rev. Qed.
 Lemma repeat_bytes_ws b n : Forall (fun c => is_ws c = true) b -> Forall (fun c => is_ws c = true) (repeat_bytes b n).
 Proof. intros H. induction n as [|n IH]; cbn [repeat_bytes]; [constructor | apply Forall_app; split; assumption]. Qed.
 
-Lemma add_ws_units indent off o : exists ws, ws_text ws /\ fst (add_whitespace indent off o) = rev ws ++ fst o.
+(* the line breaks in front of every token, against the offsets the writer was given *)
+Definition nlu (u : unit) : N := count_newlines (fst u).
+Definition offv (o : option N) : N := match o with Some n => n | None => 0 end.
+Definition NL (us : list unit) (offs : list (option N)) (o o' : out) : Prop :=
+  snd o = false -> Forall token_text (usnd us) -> snd o' = false /\ map nlu us = map offv offs.
+Lemma NL_nil o : NL [] [] o o.
+Proof. intros H _. split; [exact H | reflexivity]. Qed.
+Lemma NL_app u1 u2 x y o o1 o2 : NL u1 x o o1 -> NL u2 y o1 o2 -> NL (u1 ++ u2) (x ++ y) o o2.
+Proof.
+  intros H1 H2 Hs Ht. rewrite usnd_app in Ht. apply Forall_app in Ht. destruct Ht as [T1 T2].
+  destruct (H1 Hs T1) as [Hs1 M1]. destruct (H2 Hs1 T2) as [Hs2 M2]. split; [exact Hs2|]. rewrite !map_app, M1, M2. reflexivity.
+Qed.
+
+Lemma add_ws_units indent off o : exists ws, ws_text ws /\ fst (add_whitespace indent off o) = rev ws ++ fst o /\
+  (snd o = false -> count_newlines ws = off /\ snd (add_whitespace indent off o) = false).
 Proof.
   unfold add_whitespace. set (off' := if (off =? 0) && snd o then 1 else off).
   destruct (N.eqb_spec off' 0) as [E|E].
-  - exists [" "%char]. split; [split; [discriminate | repeat constructor]|]. apply push_fst.
-  - eexists. split; [|cbn [fst]; apply rev_append_rev].
-    split.
-    + destruct (N.to_nat off') eqn:Q; [lia|]. cbn [repeat_bytes app]. discriminate.
-    + apply Forall_app. split; apply repeat_bytes_ws; repeat constructor.
+  - exists [" "%char]. split; [split; [discriminate | repeat constructor]|]. split; [apply push_fst|].
+    intros Hs. subst off'. rewrite Hs, andb_false_r in E. subst off. split; [reflexivity | exact Hs].
+  - eexists. split; [|split; [cbn [fst]; apply rev_append_rev|]].
+    + split.
+      * destruct (N.to_nat off') eqn:Q; [lia|]. cbn [repeat_bytes app]. discriminate.
+      * apply Forall_app. split; apply repeat_bytes_ws; repeat constructor.
+    + intros Hs. subst off'. rewrite Hs, andb_false_r in *. split; [|reflexivity].
+      rewrite count_newlines_app, count_newlines_repeat_lf, count_newlines_repeat_sp. lia.
 Qed.
 
 Lemma track_fst t o : fst (track_line_comment t o) = fst o.
 Proof. unfold track_line_comment. destruct (existsb _ t); [reflexivity|]. destruct (snd o); reflexivity. Qed.
 
 (* one token behind white space *)
+Lemma push_snd t o : snd (push t o) = snd o.
+Proof. reflexivity. Qed.
+
 Lemma token_unit indent off text o (sh : shape) : snd sh = text ->
-  exists us, extends us o (push text (add_whitespace indent off o)) /\ usnd us = [sh] /\ Forall ws_ok us.
+  exists us, extends us o (push text (add_whitespace indent off o)) /\ usnd us = [sh] /\ Forall ws_ok us /\
+             NL us [Some off] o (push text (add_whitespace indent off o)).
 Proof.
-  intros <-. destruct (add_ws_units indent off o) as (ws & Hw & E). exists [(ws, sh)]. split; [|split; [reflexivity | constructor; [exact Hw | constructor]]].
-  unfold extends. rewrite push_fst, E. cbn [render flat_map fst snd]. rewrite app_nil_r, rev_app_distr, app_assoc. reflexivity.
+  intros <-. destruct (add_ws_units indent off o) as (ws & Hw & E & Hn). exists [(ws, sh)].
+  split; [|split; [reflexivity | split; [constructor; [exact Hw | constructor]|]]].
+  - unfold extends. rewrite push_fst, E. cbn [render flat_map fst snd]. rewrite app_nil_r, rev_app_distr, app_assoc. reflexivity.
+  - intros Hs _. destruct (Hn Hs) as [Hc Hf]. rewrite push_snd. split; [exact Hf|]. unfold nlu, offv. cbn [map fst]. rewrite Hc. reflexivity.
 Qed.
 
 Section WU.
@@ -64,21 +87,26 @@ Section WU.
   Variable names : list bytes.
 
   Lemma scalar_units indent ty v o :
-    exists us, extends us o (write_scalar ftab indent ty v o) /\ usnd us = scalar_toks ftab ty v /\ Forall ws_ok us.
+    exists us, extends us o (write_scalar ftab indent ty v o) /\ usnd us = scalar_toks ftab ty v /\ Forall ws_ok us /\
+               NL us (scalar_offs ty v) o (write_scalar ftab indent ty v o).
   Proof.
-    assert (Nil : exists us, extends us o o /\ usnd us = @nil shape /\ Forall ws_ok us) by (exists []; repeat split; constructor).
-    destruct ty; destruct v as [sc off| | |]; try exact Nil; destruct sc as [z hex|bits|str]; try exact Nil; cbn [write_scalar scalar_toks];
-      apply token_unit; reflexivity.
+    assert (Nil : exists us, extends us o o /\ usnd us = @nil shape /\ Forall ws_ok us /\ NL us [] o o)
+      by (exists []; split; [reflexivity | split; [reflexivity | split; [constructor | apply NL_nil]]]).
+    destruct ty; destruct v as [sc off| | |]; try exact Nil; destruct sc as [z hex|bits|str]; try exact Nil;
+      cbn [write_scalar scalar_toks scalar_offs]; apply token_unit; reflexivity.
   Qed.
 
   Lemma scalars_units indent ty : forall l o,
     exists us, extends us o (fold_left (fun acc x => write_scalar ftab indent ty x acc) l o) /\
-               usnd us = flat_map (scalar_toks ftab ty) l /\ Forall ws_ok us.
+               usnd us = flat_map (scalar_toks ftab ty) l /\ Forall ws_ok us /\
+               NL us (flat_map (scalar_offs ty) l) o (fold_left (fun acc x => write_scalar ftab indent ty x acc) l o).
   Proof.
-    induction l as [|x l IH]; intros o; [exists []; repeat split; constructor|]. cbn [fold_left flat_map].
-    destruct (scalar_units indent ty x o) as (u1 & E1 & M1 & W1).
-    destruct (IH (write_scalar ftab indent ty x o)) as (u2 & E2 & M2 & W2).
-    exists (u1 ++ u2). split; [eapply extends_trans; eassumption|]. split; [rewrite usnd_app, M1, M2; reflexivity | apply Forall_app; split; assumption].
+    induction l as [|x l IH]; intros o; [exists []; split; [reflexivity | split; [reflexivity | split; [constructor | apply NL_nil]]]|].
+    cbn [fold_left flat_map].
+    destruct (scalar_units indent ty x o) as (u1 & E1 & M1 & W1 & N1).
+    destruct (IH (write_scalar ftab indent ty x o)) as (u2 & E2 & M2 & W2 & N2).
+    exists (u1 ++ u2). split; [eapply extends_trans; eassumption|]. split; [rewrite usnd_app, M1, M2; reflexivity|].
+    split; [apply Forall_app; split; assumption | exact (NL_app _ _ _ _ _ _ _ N1 N2)].
   Qed.
 
   (* ---------- the children of a group ---------- *)
@@ -123,63 +151,102 @@ Section WU.
   Section Group.
     Variable f : nat.
     Hypothesis IH : forall td v nxt indent o, confb S posrs ftab f td v nxt = true ->
-      exists us, extends us o (write_into S posrs ftab names f v indent o) /\ usnd us = wtoks S posrs ftab f v /\ Forall ws_ok us.
+      exists us, extends us o (write_into S posrs ftab names f v indent o) /\ usnd us = wtoks S posrs ftab f v /\ Forall ws_ok us /\
+                 NL us (woffs S posrs f v) o (write_into S posrs ftab names f v indent o).
 
     Definition good_entry (g : ginfo entry) : Prop :=
       match g with
-      | GTag tag inc _ _ _ _ blk e _ =>
+      | GTag tag inc _ _ so eo blk e _ =>
           tag = bytes_of (ti_tag (snd (fst e))) /\ inc = l_incfile (layout_of (snd e)) /\ blk = ti_block (snd (fst e)) /\
+          so = l_so (layout_of (snd e)) /\ eo = l_eo (layout_of (snd e)) /\
           exists nxt, entry_ok S (confb S posrs ftab f) e nxt = true
       | GComment _ _ _ _ _ => False
       end.
 
+    Lemma units_all_ok (us : list unit) : Forall ws_ok us -> Forall token_text (usnd us) -> Forall unit_ok us.
+    Proof.
+      induction us as [|u us IHu]; intros Hw Ht; [constructor|]. inversion Hw; subst. rewrite usnd_cons in Ht. inversion Ht; subst.
+      constructor; [split; assumption | apply IHu; assumption].
+    Qed.
+
+    Lemma track_clean us o : snd o = false -> Forall unit_ok us -> snd (track_line_comment (render us) o) = false.
+    Proof.
+      intros Hs Hu. unfold track_line_comment. rewrite Hs, (elc_units us Hu). destruct (existsb _ (render us)); reflexivity.
+    Qed.
+
     Lemma emit_units indent : forall L included o, Forall good_entry L ->
       exists us, extends us o (emit_group names indent (map (gmap (kid_text (write_into S posrs ftab names f) indent)) L) included o) /\
                  usnd us = flat_map (fun e : entry => kid_toks (snd (fst e)) (wtoks S posrs ftab f (snd e))) (flat_map payload L) /\
-                 Forall ws_ok us.
+                 Forall ws_ok us /\
+                 NL us (flat_map (fun e : entry => kid_offs (snd (fst e)) (snd e) (woffs S posrs f (snd e))) (flat_map payload L)) o
+                    (emit_group names indent (map (gmap (kid_text (write_into S posrs ftab names f) indent)) L) included o).
     Proof.
-      induction L as [|g L IHL]; intros included o HL; [exists []; repeat split; constructor|].
+      induction L as [|g L IHL]; intros included o HL; [exists []; split; [reflexivity | split; [reflexivity | split; [constructor | apply NL_nil]]]|].
       inversion HL as [|? ? Hg HL']; subst. destruct g as [tag inc uid line so eo blk e pos|]; [|destruct Hg].
-      destruct Hg as (-> & -> & -> & nxt & Hok). destruct e as [[i ti] k]. cbn [fst snd] in *.
+      destruct Hg as (-> & -> & -> & -> & -> & nxt & Hok). destruct e as [[i ti] k]. cbn [fst snd] in *.
       unfold entry_ok in Hok. cbn [fst snd] in Hok.
       destruct (lookup_ty S (ti_type ti)) as [td|] eqn:El; [|discriminate].
       apply andb_true_iff in Hok. destruct Hok as [Hok Hconf]. apply andb_true_iff in Hok. destruct Hok as [Hok Hinc].
       destruct (l_incfile (layout_of k)) eqn:Einc; [discriminate|].
       cbn [map gmap emit_group].
-      destruct (IH td k nxt (Datatypes.S indent) empty_out Hconf) as (usk & Ek & Mk & Wk).
+      destruct (IH td k nxt (Datatypes.S indent) empty_out Hconf) as (usk & Ek & Mk & Wk & Nk).
       assert (Hkt : kid_text (write_into S posrs ftab names f) indent (i, ti, k) = render usk).
       { unfold kid_text. cbn [snd]. rewrite Einc. apply (finish_extends usk _ Ek). }
       rewrite !Hkt.
       set (tagb := bytes_of (ti_tag ti)) in *.
-      cbn [flat_map payload app]. 
+      cbn [flat_map payload app].
+      set (so := l_so (layout_of k)) in *. set (eo := l_eo (layout_of k)) in *.
       destruct (ti_block ti) eqn:Hb.
       - (* /begin TAG kid /end TAG *)
-        destruct (add_ws_units indent so o) as (ws1 & Hw1 & E1).
+        destruct (add_ws_units indent so o) as (ws1 & Hw1 & E1 & Hn1).
         set (o1 := track_line_comment (render usk) (push (bytes_of "/begin " ++ tagb ++ render usk) (add_whitespace indent so o))).
-        destruct (add_ws_units indent eo o1) as (ws2 & Hw2 & E2).
+        destruct (add_ws_units indent eo o1) as (ws2 & Hw2 & E2 & Hn2).
         set (o2 := push (bytes_of "/end " ++ tagb) (add_whitespace indent eo o1)).
-        destruct (IHL included o2 HL') as (usr & Er & Mr & Wr).
+        destruct (IHL included o2 HL') as (usr & Er & Mr & Wr & Nr).
         set (sp := [" "%char]).
         assert (Hsp : ws_text sp) by (split; [discriminate | repeat constructor]).
         exists ([(ws1, (TBegin, "/"%char :: b_begin)); (sp, (TIdentifier, tagb))] ++ usk ++ [(ws2, (TEnd, "/"%char :: b_end)); (sp, (TIdentifier, tagb))] ++ usr).
-        split; [|split].
+        split; [|split; [|split]].
         + unfold extends in *. rewrite Er. unfold o2. rewrite push_fst, E2. unfold o1. rewrite track_fst, push_fst, E1.
           rewrite !render_app. cbn [render flat_map fst snd]. rewrite !app_nil_r.
           rewrite !rev_app_distr. rewrite <- !app_assoc. reflexivity.
         + rewrite !usnd_app, !usnd_cons, ?usnd_nil, Mk, Mr. cbn [fst snd]. unfold kid_toks. rewrite Hb. cbn [app]. rewrite <- app_assoc. reflexivity.
         + apply Forall_app. split; [constructor; [exact Hw1 | constructor; [exact Hsp | constructor]]|]. apply Forall_app. split; [exact Wk|].
           apply Forall_app. split; [constructor; [exact Hw2 | constructor; [exact Hsp | constructor]] | exact Wr].
+        + (* the line breaks *)
+          intros Hs Ht. rewrite !usnd_app in Ht. apply Forall_app in Ht. destruct Ht as [_ Ht]. apply Forall_app in Ht. destruct Ht as [Htk Ht].
+          apply Forall_app in Ht. destruct Ht as [_ Htr].
+          destruct (Hn1 Hs) as [C1 F1]. destruct (Nk eq_refl Htk) as [_ Mnk].
+          assert (Fo1 : snd o1 = false).
+          { unfold o1. apply track_clean; [rewrite push_snd; exact F1 | apply units_all_ok; assumption]. }
+          destruct (Hn2 Fo1) as [C2 F2].
+          assert (Fo2 : snd o2 = false) by (unfold o2; rewrite push_snd; exact F2).
+          destruct (Nr Fo2 Htr) as [Ffin Mnr]. split; [exact Ffin|].
+          assert (Hsp0 : forall sh, nlu (sp, sh) = 0) by reflexivity.
+          assert (H1 : forall sh, nlu (ws1, sh) = so) by (intros; unfold nlu; cbn [fst]; exact C1).
+          assert (H2 : forall sh, nlu (ws2, sh) = eo) by (intros; unfold nlu; cbn [fst]; exact C2).
+          rewrite !map_app. cbn [map app]. rewrite !H1, !H2, !Hsp0, Mnk.
+          unfold kid_offs. cbn [fst snd]. rewrite Hb. fold so eo. cbn [map offv]. rewrite !map_app. cbn [map offv app].
+          rewrite <- !app_assoc. cbn [app]. do 2 f_equal. f_equal. do 2 f_equal. exact Mnr.
       - (* TAG kid *)
-        destruct (add_ws_units indent so o) as (ws1 & Hw1 & E1).
+        destruct (add_ws_units indent so o) as (ws1 & Hw1 & E1 & Hn1).
         set (o1 := track_line_comment (render usk) (push ([] ++ tagb ++ render usk) (add_whitespace indent so o))).
-        destruct (IHL included o1 HL') as (usr & Er & Mr & Wr).
+        destruct (IHL included o1 HL') as (usr & Er & Mr & Wr & Nr).
         exists ([(ws1, (TIdentifier, tagb))] ++ usk ++ usr).
-        split; [|split].
+        split; [|split; [|split]].
         + unfold extends in *. rewrite Er. unfold o1. rewrite track_fst, push_fst, E1.
           rewrite !render_app. cbn [render flat_map fst snd app]. rewrite !app_nil_r.
           rewrite !rev_app_distr. rewrite <- !app_assoc. reflexivity.
         + rewrite !usnd_app, !usnd_cons, ?usnd_nil, Mk, Mr. cbn [fst snd]. unfold kid_toks. rewrite Hb. reflexivity.
         + apply Forall_app. split; [constructor; [exact Hw1 | constructor]|]. apply Forall_app. split; assumption.
+        + intros Hs Ht. rewrite !usnd_app in Ht. apply Forall_app in Ht. destruct Ht as [_ Ht]. apply Forall_app in Ht. destruct Ht as [Htk Htr].
+          destruct (Hn1 Hs) as [C1 F1]. destruct (Nk eq_refl Htk) as [_ Mnk].
+          assert (Fo1 : snd o1 = false).
+          { unfold o1. apply track_clean; [rewrite push_snd; exact F1 | apply units_all_ok; assumption]. }
+          destruct (Nr Fo1 Htr) as [Ffin Mnr]. split; [exact Ffin|].
+          assert (H1 : forall sh, nlu (ws1, sh) = so) by (intros; unfold nlu; cbn [fst]; exact C1).
+          rewrite !map_app. cbn [map app]. rewrite !H1, Mnk.
+          unfold kid_offs. cbn [fst snd]. rewrite Hb. fold so. cbn [map offv app]. do 2 f_equal. exact Mnr.
     Qed.
 
     (* every entry of the written order comes from the group and carries what [emit_units] needs *)
@@ -195,7 +262,8 @@ Section WU.
     Qed.
 
     Lemma struct_units td x indent o : struct_ok S ftab td x = true -> has_toks (wtoks S posrs ftab f) x = true ->
-      exists us, extends us o (write_into S posrs ftab names f x indent o) /\ usnd us = wtoks S posrs ftab f x /\ Forall ws_ok us.
+      exists us, extends us o (write_into S posrs ftab names f x indent o) /\ usnd us = wtoks S posrs ftab f x /\ Forall ws_ok us /\
+                 NL us (woffs S posrs f x) o (write_into S posrs ftab names f x indent o).
     Proof.
       intros Hs Ht. destruct f as [|g] eqn:Ef; [unfold has_toks in Ht; cbn [wtoks] in Ht; discriminate|].
       rewrite <- Ef in *. apply (IH td x None). rewrite Ef. apply struct_conf. exact Hs.
@@ -203,24 +271,30 @@ Section WU.
 
     Lemma structs_units td indent : forall l o, (forall x, In x l -> struct_ok S ftab td x = true /\ has_toks (wtoks S posrs ftab f) x = true) ->
       exists us, extends us o (fold_left (fun acc x => write_into S posrs ftab names f x indent acc) l o) /\
-                 usnd us = flat_map (wtoks S posrs ftab f) l /\ Forall ws_ok us.
+                 usnd us = flat_map (wtoks S posrs ftab f) l /\ Forall ws_ok us /\
+                 NL us (flat_map (woffs S posrs f) l) o (fold_left (fun acc x => write_into S posrs ftab names f x indent acc) l o).
     Proof.
-      induction l as [|x l IHl]; intros o H; [exists []; repeat split; constructor|]. cbn [fold_left flat_map].
+      induction l as [|x l IHl]; intros o H; [exists []; split; [reflexivity | split; [reflexivity | split; [constructor | apply NL_nil]]]|].
+      cbn [fold_left flat_map].
       destruct (H x (or_introl eq_refl)) as [H1 H2].
-      destruct (struct_units td x indent o H1 H2) as (u1 & E1 & M1 & W1).
-      destruct (IHl (write_into S posrs ftab names f x indent o) (fun y Hy => H y (or_intror Hy))) as (u2 & E2 & M2 & W2).
-      exists (u1 ++ u2). split; [eapply extends_trans; eassumption|]. split; [rewrite usnd_app, M1, M2; reflexivity | apply Forall_app; split; assumption].
+      destruct (struct_units td x indent o H1 H2) as (u1 & E1 & M1 & W1 & N1).
+      destruct (IHl (write_into S posrs ftab names f x indent o) (fun y Hy => H y (or_intror Hy))) as (u2 & E2 & M2 & W2 & N2).
+      exists (u1 ++ u2). split; [eapply extends_trans; eassumption|]. split; [rewrite usnd_app, M1, M2; reflexivity|].
+      split; [apply Forall_app; split; assumption | exact (NL_app _ _ _ _ _ _ _ N1 N2)].
     Qed.
 
     Lemma items_units is_block indent : forall its fields kids o after,
       items_ok S posrs ftab (confb S posrs ftab f) (wtoks S posrs ftab f) is_block its fields kids after = true ->
       exists us, extends us o (write_items S posrs ftab names (write_into S posrs ftab names f) is_block indent [] its fields kids o) /\
-                 usnd us = items_toks S posrs ftab (wtoks S posrs ftab f) its fields kids /\ Forall ws_ok us.
+                 usnd us = items_toks S posrs ftab (wtoks S posrs ftab f) its fields kids /\ Forall ws_ok us /\
+                 NL us (items_offs S posrs (woffs S posrs f) its fields kids) o
+                    (write_items S posrs ftab names (write_into S posrs ftab names f) is_block indent [] its fields kids o).
     Proof.
-      induction its as [|it its IHi]; intros fields kids o after Hok; [exists []; repeat split; constructor|].
+      induction its as [|it its IHi]; intros fields kids o after Hok;
+        [exists []; split; [reflexivity | split; [reflexivity | split; [constructor | apply NL_nil]]]|].
       destruct it as [fname ty | union last titems].
       - cbn [items_ok] in Hok. destruct fields as [|fv fr]; [discriminate|]. apply andb_true_iff in Hok. destruct Hok as [Hf Hr].
-        cbn [write_items items_toks].
+        cbn [write_items items_toks items_offs].
         assert (Hfield : forall o0, exists us, extends us o0
                    (match ty, fv with
                     | FStruct _, _ => write_into S posrs ftab names f fv indent o0
@@ -228,24 +302,32 @@ Section WU.
                     | FSeq (FStruct _) _, VList l => fold_left (fun acc x => write_into S posrs ftab names f x indent acc) l o0
                     | FSeq t _, VList l => fold_left (fun acc x => write_scalar ftab indent t x acc) l o0
                     | _, _ => write_scalar ftab indent ty fv o0
-                    end) /\ usnd us = field_toks ftab (wtoks S posrs ftab f) ty fv /\ Forall ws_ok us).
+                    end) /\ usnd us = field_toks ftab (wtoks S posrs ftab f) ty fv /\ Forall ws_ok us /\
+                   NL us (field_offs (woffs S posrs f) ty fv) o0
+                   (match ty, fv with
+                    | FStruct _, _ => write_into S posrs ftab names f fv indent o0
+                    | FArray t _, VList l => fold_left (fun acc x => write_scalar ftab indent t x acc) l o0
+                    | FSeq (FStruct _) _, VList l => fold_left (fun acc x => write_into S posrs ftab names f x indent acc) l o0
+                    | FSeq t _, VList l => fold_left (fun acc x => write_scalar ftab indent t x acc) l o0
+                    | _, _ => write_scalar ftab indent ty fv o0
+                    end)).
         { intros o0. destruct ty.
           1-7: (destruct fv; apply scalar_units).
-          - cbn [field_ok] in Hf. cbn [field_toks]. destruct (lookup_ty S s) as [td|]; [|discriminate].
+          - cbn [field_ok] in Hf. cbn [field_toks field_offs]. destruct (lookup_ty S s) as [td|]; [|discriminate].
             apply andb_true_iff in Hf. destruct Hf as [H1 H2]. apply (struct_units td fv indent o0 H1 H2).
-          - destruct fv as [| l | |]; try apply scalar_units. cbn [field_toks]. apply scalars_units.
+          - destruct fv as [| l | |]; try apply scalar_units. cbn [field_toks field_offs]. apply scalars_units.
           - destruct fv as [| l | |]; try (destruct ty; apply scalar_units).
-            destruct ty; try (cbn [field_toks]; apply scalars_units).
-            cbn [field_ok] in Hf. cbn [field_toks]. destruct (lookup_ty S s) as [td|]; [|discriminate].
+            destruct ty; try (cbn [field_toks field_offs]; apply scalars_units).
+            cbn [field_ok] in Hf. cbn [field_toks field_offs]. destruct (lookup_ty S s) as [td|]; [|discriminate].
             apply andb_true_iff in Hf. destruct Hf as [Hf _]. apply andb_true_iff in Hf. destruct Hf as [_ Hall].
             apply (structs_units td indent l o0). intros x Hx. rewrite forallb_forall in Hall. specialize (Hall x Hx).
             apply andb_true_iff in Hall. exact Hall. }
-        destruct (Hfield o) as (u1 & E1 & M1 & W1).
+        destruct (Hfield o) as (u1 & E1 & M1 & W1 & N1).
         match goal with
-        | |- context [write_items _ _ _ _ _ _ _ _ its fr kids ?o1] => destruct (IHi fr kids o1 after Hr) as (u2 & E2 & M2 & W2)
+        | |- context [write_items _ _ _ _ _ _ _ _ its fr kids ?o1] => destruct (IHi fr kids o1 after Hr) as (u2 & E2 & M2 & W2 & N2)
         end.
         exists (u1 ++ u2). split; [eapply extends_trans; [exact E1 | exact E2]|].
-        split; [rewrite usnd_app, M1, M2; reflexivity | apply Forall_app; split; assumption].
+        split; [rewrite usnd_app, M1, M2; reflexivity|]. split; [apply Forall_app; split; assumption | exact (NL_app _ _ _ _ _ _ _ N1 N2)].
       - cbn [items_ok] in Hok.
         apply andb_true_iff in Hok. destruct Hok as [Hok Hmu].
         apply andb_true_iff in Hok. destruct Hok as [Hok Hen].
@@ -256,20 +338,21 @@ Section WU.
         apply andb_true_iff in Hok. destruct Hok as [Hun Hib].
         destruct its as [|]; [|discriminate]. destruct fields as [|]; [|discriminate].
         apply Nat.eqb_eq in Hlk. subst is_block.
-        cbn [write_items items_toks]. rewrite <- Hlk, firstn_all, app_nil_r. cbn [map]. rewrite app_nil_r.
+        cbn [write_items items_toks items_offs]. rewrite <- Hlk, firstn_all, ?app_nil_r. cbn [map]. rewrite ?app_nil_r.
         unfold add_group.
         change (flat_map _ (combine titems kids)) with
           (flat_map (fun p : titem * list value => map (wentry (write_into S posrs ftab names f) indent (fst p)) (snd p)) (combine titems kids)).
         rewrite (writer_group_is_map (write_into S posrs ftab names f) indent titems kids 0).
         change (flat_map _ (combine (combine (seq 0 (length titems)) titems) kids)) with (kid_entries S posrs titems kids).
         rewrite group_order_map.
-        destruct (emit_units indent (group_order (kid_entries S posrs titems kids)) [] o (good_entries titems kids after Hen)) as (us & E & M & W).
-        exists us. split; [exact E|]. split; [exact M | exact W].
+        destruct (emit_units indent (group_order (kid_entries S posrs titems kids)) [] o (good_entries titems kids after Hen)) as (us & E & M & W & Nn).
+        exists us. split; [exact E|]. split; [exact M|]. split; [exact W | exact Nn].
     Qed.
   End Group.
 
   Theorem write_units : forall f td v nxt indent o, confb S posrs ftab f td v nxt = true ->
-    exists us, extends us o (write_into S posrs ftab names f v indent o) /\ usnd us = wtoks S posrs ftab f v /\ Forall ws_ok us.
+    exists us, extends us o (write_into S posrs ftab names f v indent o) /\ usnd us = wtoks S posrs ftab f v /\ Forall ws_ok us /\
+               NL us (woffs S posrs f v) o (write_into S posrs ftab names f v indent o).
   Proof.
     induction f as [|f IH]; intros td v nxt indent o Hconf; [discriminate|].
     cbn [confb] in Hconf. destruct v as [| |ty lay fields kids cms|]; try discriminate.
@@ -281,7 +364,7 @@ Section WU.
     apply String.eqb_eq in Hname. subst ty.
     destruct (lookup_ty S (t_name td)) as [td'|] eqn:El; [|discriminate]. apply tydef_eqb_eq in Hlk. subst td'.
     destruct cms; [|discriminate]. destruct (t_special td) eqn:Esp; [discriminate|].
-    cbn [write_into wtoks]. rewrite El, Esp.
+    cbn [write_into wtoks woffs]. rewrite El, Esp.
     apply (items_units f IH _ indent (t_items td) fields kids o _ Hitems).
   Qed.
 End WU.
